@@ -173,6 +173,9 @@ func positionalLoopOK(P *Prog, fn *ssa.Function, x *exitInfo, invoke string) str
 
 func runC11(r *Report, tier string) {
 	P := r.P
+	// round 6
+	r.rule("R05.4", "(shared with C05) no structure decoder stores an empty signature: a COSE_Sign whose element carries a zero-length signature in any head width is refused, not decoded into a message that can only fail later.")
+	checkDecodersRefuseEmptySignature(r, "R05.4")
 	r.rule("R11.1", "SignMessage.Verify/Sign: before the loop, payload non-nil, len(Signatures) != 0 and len(Signatures) == len(verifiers|signers).")
 	r.rule("R11.2", "the per-signature call sits in a full-range index loop over m.Signatures; receiver Signatures[i] and key verifiers[i]/signers[i] use the same index value; its error is tested every iteration and any non-nil error leaves through a failure exit; success is only reachable from the loop exit.")
 	r.rule("R11.3", "SignMessage encoder: len(Signatures) != 0 and each element's encoder succeeded (which itself requires non-nil element and non-empty signature); decoder: non-empty signature list and each element decoded by the Signature decoder.")
